@@ -198,15 +198,36 @@ CHECKS = {
         "technique": 'Lean 4 proof over staged response model + extracted keys + direct response-format oracle',
     },
     "C13": {
-        "text": ('Lean theorems about a method-by-method model of SchemaValidator: validate_iff/accepts_iff (no error <=> ValidSchema), violation_iff (an error is repor'
-                 'ted <=> that rule instance is violated: all violations together, both directions), subtype_iff about Schema.is_subtype TRANSLATED from source each run'
-                 ', perm_types, cache_sound_all (over all histories of validate / register_* / multi-entry replace requests incl. refusals; the accumulation, atomicity '
-                 'and directive flags are RE-EXTRACTED from _replace_types_and_directives), legacy refutations, name_iff about the extracted VALID_NAME_RE classes; tied'
-                 ' by correspondence (verdict + set of reporting rules) on generated schemas with labelled violations, permutations and cache histories, with Lean-guard'
-                 'ed shrinking.'),
-        "note": ('Trusted: Lean kernel; py2lean translator; extraction of name classes, rule format strings (used only to attribute errors) and replace flags; inspect.s'
-                 'ignature, build_schema and fix_type_references are exercised, not modelled; direct assignment field.resolver=f is outside the statement.'),
-        "technique": 'Lean 4 proof over hand model + source-translated is_subtype + labelled-violation correspondence',
+        "text": ('Lean model of SchemaValidator method by method (SchemaValid.lean; is_subtype TRANSLATED from source each run; name classes, rule format '
+                 'strings, the flags of _replace_types_and_directives and one flag per repaired defect RE-EXTRACTED each run: model_rules_extracted, '
+                 'config_fixed; the individual flag checks are private `decide` lemmas, not counted as obligations) against the declarative Spec/SchemaValidSpec.lean. Headline theorems, all full: validate_iff / accepts_iff (no error <=> '
+                 'ValidSchema), violation_iff / reports_every_violation / valid_iff_no_violation (an error is reported <=> that rule INSTANCE is violated: '
+                 'the validator never stops at the first), reports_all, subtype_iff (+ subtype_fuel) through lists and non-null, name_iff, perm_types '
+                 '(verdict independent of the order of schema.types), the uniqueness clauses of the specification that the validator does not re-check on '
+                 'live objects NAMED (ConstructionInvariants, validate_iff_spec, enum_uniqueness_not_implemented), the resolver clause given its meaning by an explicit model of Python call binding '
+                 '(Props/C13_call.lean: compatible_calls_bind, binds_all_compatible, compatible_iff_binds, resolver_rule_iff_binds: accepted <=> every '
+                 'call resolver(root, ctx, info, **arguments) the executor can make binds), and the _is_valid cache as a state machine over validate / '
+                 'register_resolver / register_default_resolver / register_subscription / plain resolver assignment / field.arguments / multi-entry replace '
+                 'requests incl. refusals / structural plain assignments: cache_sound, validate_ok_means_valid, step_inv, cache_sound_all (cached-valid => '
+                 'the CURRENT schema is valid, over all honest histories), structural_setter_seen_sound, and - WITH proposed_fixes/C13-S12.patch (fingerprint = everything the validator reads; flag '
+                 'cfgCacheTracksStructure re-extracted) - cache_sound_all_mutators / cache_sound_every_history: EVERY public mutator, structural plain '
+                 'assignments included, with honest replace requests as the only condition. the default-value clause given an independent meaning (Props/C13_default.lean: declarative Conforms, default_error_sound at every fuel, '
+                 'defaultOK_iff_conforms within the 64 levels the model looks at). perm_deep: the verdict does not depend on the order of ANY '
+                 'list of the description at any level (types, directives, fields, arguments, enum values, input fields, union members, interfaces). '
+                 'Refuted with machine-checked witnesses: the legacy cache variants (legacy_overwrite / nonatomic / directive_unsound, '
+                 'legacy_type_name_masks, legacy_duplicate_masks, and cache_unsound_unseen_structural_setter / cache_sound_all_mutators_fails_today for '
+                 'the tree before fix C13-S12). '
+                 'Tied by correspondence (verdict + multiset of reporting rule instances, both values of enable_resolver_validation) on the DUMP OF THE '
+                 'LIVE schema over streams A-M: valid schemas, labelled violations at every position, covariance through wrappers, all type orders, '
+                 'register/assign/replace/validate histories, one resolver shared by several fields, derived schemas (clone / transform / extend), '
+                 'setter edits, really-called resolver signatures, address reuse of dropped resolvers; Lean-guarded shrinking.'),
+        "note": ('Trusted: Lean kernel; py2lean translator; extraction of name classes, rule format strings (used only to attribute errors), replace '
+                 'flags and fix flags; inspect.signature (signatures enter the model as data; bindOk is a model of CPython call binding checked by REALLY '
+                 'calling the generated callables); build_schema and fix_type_references are exercised, not modelled. Only exercised: what a deletion heals '
+                 '(taken from the live object). Until proposed_fixes/C13-S12.patch is committed to /repo the obligation cache_tracks_structure fails and '
+                 'structural plain assignments keep a stale verdict (counted: outside_statement_stale_after_structural_setter). Residual after the fix: '
+                 'objects not reachable from schema.types, the derived caches implementations / _possible_types, in-place mutation of a default value.'),
+        "technique": 'Lean 4 proof over hand model (validator = declarative rules instance by instance; cache invariant over all histories; call-binding model) + source-translated is_subtype + labelled-violation / history correspondence',
     },
     "C20": {
         "text": ("Lean theorems about the safe-change predicates TRANSLATED from differ/__init__.py on every run "
@@ -335,28 +356,39 @@ CHECKS["C14"].update({
     "technique": "Lean 4 proof over heap model (closedness and frame for clone/transform/extend) + live object-graph correspondence",
 })
 CHECKS["C20"].update({
-    "text": ("Lean theorems about the safe-change predicates TRANSLATED from differ/__init__.py on every run (safeIn_iff: exact for all type expressions; "
-             "safeOut_iff_partial + machine-checked refutation of the full statement = finding G1; safeOut_base / safeIn_base) and about the severity table "
-             "EXTRACTED from changes.py. diff_schema itself is modelled in Lean (Diff.lean, root operation types included) with: diff_refl (all schemas "
-             "with unique names), diff_perm / diff_perm_count / no_breaking_perm (permuting the type and directive definitions of either schema permutes "
-             "the report: same multiset of changes at every filter), one *_reported theorem for EVERY elementary edit of the property's list (types, kinds, "
-             "root types, fields, arguments, input fields, enum values, union members, interface implementations, directives, locations, defaults, "
-             "deprecations: the unfiltered report contains the change of the expected class naming the element; reported_at_severity lifts to every "
-             "filter not above the class severity), min_severity_filters, nobreaking_args_permissive (semantic, full), nobreaking_fields_strict_partial "
-             "(list-free types; G1), the schema-shape facts nobreaking_types_kept / kinds_kept / fields_kept / arguments_kept / "
-             "no_new_required_argument / enum_values_kept / union_members_kept / input_fields / kindOf / fieldOf / rootType, and the headline "
-             "operations_stay_valid: no BREAKING change reported => every document that is ValidDoc (the declarative validity predicate of C05's "
-             "soundness theorem) on the old schema is ValidDoc on the new one, for all documents and variables. Tied by exhaustive comparison of the "
-             "real predicates with the compiled model on all type pairs of depth<=3/4, comparison of the real diff_schema with the Lean model on every "
-             "generated schema pair (multiset of class, severity, identifying attributes), and a schema-level oracle (generated schema + elementary edit + "
-             "reverse edit, 20 edit kinds incl. root types; definition permutations; code-built enums; diff/clone/transform/in-place-visitor histories; "
-             "schemas derived by argument-renaming/dropping transforms vs the same schema rebuilt from its SDL; repeated diffs on the same objects)."),
+    "text": ("Lean theorems about the safe-change predicates TRANSLATED from differ/__init__.py on every run (safeIn_iff: exact for all type expressions read WITHOUT list input coercion; with it sound but conservative - safeIn_sound_coercion, "
+             "safeIn_not_exact_with_list_coercion: Int -> [Int] is reported BREAKING; safeOut_eq: the output predicate IS the subtype test except on the G1 class, safeOut_iff_outside_G1, safeOut_iff_partial + machine-checked "
+             "refutation of the full statement = finding G1; safeOut_base / safeIn_base) and about the severity table EXTRACTED from changes.py "
+             "(severity_table, compatibleRetypeSeverity). diff_schema itself is modelled in Lean (Diff.lean, root operation types included) with: "
+             "diff_refl / diff_schema_zero / diff_eqv_zero (equal up to the order of every list: nothing reported), diff_perm and diff_perm_deep (+ _count, no_breaking_perm(_deep)): reordering ANY member list of either schema "
+             "at any level - types, directives, fields, arguments, enum values, input fields, union members, interfaces, locations - permutes the report "
+             "(same multiset at every filter); one *_reported theorem for EVERY elementary edit of the property's list and any_retyped_*_reported / "
+             "compatibly_retyped_*_reported (every retyping of a matched element is reported), reported_at_severity, min_severity_filters; "
+             "nobreaking_args_permissive (semantic, full), nobreaking_fields_strict_outside_G1 (lists included; the G1 class is the exact residue: "
+             "nobreaking_fields_strict_full_fails_today), the shape facts nobreaking_types_kept / kinds_kept / fields_kept / arguments_kept / "
+             "no_*_becomes_required / enum_values_kept / union_members_kept / input_fields / directives; and the clause 'no BREAKING change => every operation valid on the old schema is valid on the new one': AS WORDED it is OperationsStayValidFull (Props/C20_full.lean, over the C06 validator model, all 26 rules) and is REFUTED (operations_stay_valid_full_refuted; witnesses unrooted_operation_refutes_full = G6, same_response_shape_refutes_full = G4); what is proved is PARTIAL: operations_stay_valid_all_but_overlap_partial (validator model, every rule but OverlappingFieldsCanBeMerged, under OpsRooted and the well-formedness facts), resting on " 
+             "operations_stay_valid_rules_all (specification predicates); the older operations_stay_valid covers only the STRUCTURAL predicate ValidDoc of C05 " 
+             "(no arguments, values, variables, directives) and is partial in the same sense. In detail: operations_stay_valid_rules_all over the C06 SPECIFICATION predicates rule by rule, 25 of the 26 rules: "
+             "operations_stay_valid_rules (8 rules; views_compatible: the static output contexts of every node stay compatible), "
+             "nobreaking_possibleFragmentSpreads, nobreaking_valuesOfCorrectType (inputViews_compatible: the expected INPUT type of every position "
+             "- argument, list item, input object field, at any depth - is unknown on both sides or at least as permissive on the new one: "
+             "argPos_rel / listItemPos_rel / objFieldPos_rel) and nobreaking_variablesInAllowedPosition (usesValue_rel: every usage on the new schema "
+             "is a usage on the old one at an at-least-as-strict position; isSubtype_eq_sub: at input positions is_subtype is the strictness order), "
+             "for all documents whose operations have a root type in the old schema (necessary: unrooted_operation_refutes, finding G6). "
+             "OverlappingFieldsCanBeMerged is FALSE (finding G4). Tied by "
+             "exhaustive comparison of the real predicates with the compiled model on all type pairs of depth<=3/4, comparison of the real diff_schema "
+             "with the Lean model on every generated schema pair (multiset of class, severity, identifying attributes), and a schema-level oracle "
+             "(generated schema + elementary edit + reverse edit, 20 edit kinds incl. root types; definition and inner-list permutations; code-built "
+             "enums; live-object edits; diff/clone/transform/in-place-visitor histories; schemas derived by argument-renaming/dropping transforms vs "
+             "the same schema rebuilt from its SDL; repeated diffs on the same objects; sampled valid operations re-validated on the new schema)."),
     "note": ("Trusted: Lean kernel; py2lean translator; reference semantics of type expressions on abstract values (accepts); generators. diff_schema's "
-             "traversal is hand-modelled and tied by correspondence (not re-translated). operations_stay_valid speaks about selection-level validity "
-             "(ValidDoc: fields, leaves, type conditions, fragments, roots); argument- and variable-level validity is covered by the shape theorems "
-             "(arguments kept, no new required argument, input positions at least as permissive) and by sampled valid operations re-validated on the new "
-             "schema. Known finding G1; G2 (root types never compared) was repaired in /repo."),
-    "technique": "Lean 4 proof (translated predicates, diff model: reflexivity, order independence, every edit reported, operations stay valid) + exhaustive small-scope correspondence + edit oracle",
+             "traversal is hand-modelled and tied by correspondence (not re-translated); hash ordering does not exist in the model (only `contains` is "
+             "asked: diff_perm_deep) and is exercised with PYTHONHASHSEED varied in fresh interpreters; memos of live schema objects are exercised only "
+             "(live-object and history classes). OldWf / NewWf / OldWfIn / NewWfIn (closed type map, well-formed argument types, unique argument and "
+             "input field names) are consequences of Schema.validate(), which diff_schema calls first; they are hypotheses, not derived from C13 here; "
+             "the input-side rules are stated for the validator WITH fix V9 (necessary: fix_v9_necessary; values_rule_necessary); operations_stay_valid_of_valid (Props/C20_wf_of_valid.lean) takes C13's ValidSchema of both schemas instead, plus three facts about dumps (DumpShape, built-in types listed, well-formed argument types). The inner-order oracle has a deterministic block (every "
+             "member-list kind x every removed element x rotations). Known findings G1, G4 (pinned by the suite), G6."),
+    "technique": "Lean 4 proof (translated predicates, diff model: reflexivity, order independence at every level, every edit reported, operations stay valid rule by rule over the C06 specification) + exhaustive small-scope correspondence + edit oracle",
 })
 
 
